@@ -4,14 +4,19 @@ RULE = ("cases = corpus (both upstream golden files, D3 reproducer) + seeded con
         "encoder written from the format spec: 0-6 chunks, both cookies, with/without offset header, per-chunk run vs "
         "array/bitset, 13 chunk shapes incl. sum(len-1) <= 4096 < cardinality, 4095/4096/4097, full chunk, adjacent runs; "
         "each decoded by both decoders, by Lean Spec.decode and by the Rust reference decoder, compared with the natively "
-        "built set; non-trivial = run cookie, or a bitset chunk, or >= 2 chunks; distinct by SHA-1 of the ops")
+        "built set; non-trivial = run cookie, or a bitset chunk, or >= 2 chunks; distinct by SHA-1 of the ops. 64-bit half (profile C06T): conformant portable streams from an independent "
+        "encoder (0-4 ascending buckets, keys from {0,1,3,4,2^32-1}, inner streams from the 32-bit encoder incl. run "
+        "chunks and both headers, sometimes an empty bucket) through both decoders, Lean Spec.decode64 and the Rust "
+        "reference decoder; teq against the natively built treemap with expect true; non-trivial = some inner run "
+        "cookie or >= 2 buckets")
 
 CFG = {
-    "gen_profiles": ["C06"],
-    "cases": {"quick": 800, "thorough": 8000},
+    "gen_profiles": ["C06", "C06T"],
+    "cases": {"quick": 1600, "thorough": 16000},
     "compare": "full",
     "rule": RULE,
-    "nontrivial": lambda body, mout: any("hex:3b30" in op[:40] for op in body) or any((" nb=" in o and " nb=0 " not in o) for o in mout),
+    "nontrivial": lambda body, mout: any("hex:3b30" in op[:40] for op in body) or any((" nb=" in o and " nb=0 " not in o) for o in mout)
+                  or any(op.startswith("note parts=") and ("cookie=run" in op or not op.startswith(("note parts=0", "note parts=1"))) for op in body),
     "targets": {
         "no-run cookie": r"^deser chk b\d+ hex:3a30.* => ok",
         "run cookie, < 4 chunks: no offset header": r"^note cookie=run offsets=no",
@@ -27,6 +32,16 @@ CFG = {
         "== natively built set": r"^eq b0 b1 => true",
         "unchecked decoder agrees": r"^eq b2 b0 => true",
         "both reference decoders accept": r"^spec_decode .* => ok ",
+        "64-bit: conformant stream with >= 2 buckets": r"^note parts=[2-4] ",
+        "64-bit: zero buckets": r"^note parts=0 ",
+        "64-bit: empty bucket inside a conformant stream": r"^note parts=.*empty-bucket",
+        "64-bit: inner stream with run cookie / without offsets": r"^note parts=.*cookie=run,offsets=no",
+        "64-bit: inner bitset chunk": r"^note parts=.*/B/",
+        "64-bit: bucket key u32::MAX": r"^note parts=.*key=4294967295 ",
+        "64-bit: == natively built treemap": r"^teq t0 t1 => true",
+        "64-bit: unchecked decoder agrees": r"^teq t2 t0 => true",
+        "64-bit: both reference decoders accept": r"^tspec_decode .* => ok ",
+        "64-bit: trailing bytes left unread": r"^tdeser chk .* => ok rest=[1-9]",
         "golden file without runs: Spec.decode gives the documented set and Spec.encode reproduces the file": r"^spec_decode .* => ok len=200100 eh=2caf1734041d0c65 rest=0 same=true",
         "golden file with runs: Spec.decode gives the documented set": r"^spec_decode hex:3b30.* => ok len=200100 eh=2caf1734041d0c65 rest=0 same=false",
     },
@@ -34,7 +49,8 @@ CFG = {
         'no proof gap: the full statement is proved (C06 : C06_statement): for every byte string bs (all entries < 256) with Spec.decode bs = some (S, rest), deserialize chk dbg bs = ok (b, rest) for both decoders and both build configurations, with Bitmap.WF b and elems b = S; covers both cookies, streams with and without offset header, array / bitset / run chunks in any position (Lemmas/DecodeSpec.lean: decodeHeader_spec, decodeContainers_spec, decodeStore_spec; run chunks via Store.insertRange_spec + Container.ensureCorrectStore_spec)',
         'corollaries: C06_unique / C06_agree (the result is the canonical representation of S, all four decoder configurations agree), C06_standard (decoders invert Spec.encode), C06_checked_wf',
         'the byte-string hypothesis (entries < 256) is needed only because the model represents bytes as Nat: with an entry 256 both little-endian readers produce the chunk key 65536 (example in Props/C06.lean); it is not a restriction on real inputs',
-        'the 64-bit portable format is handled by the treemap family',
+        '64-bit portable format, no proof gap: the full statement is proved (C06_t : C06_t_statement): for every byte string bs (all entries < 256) with Spec.decode64 bs = some (S, rest), Treemap.deserialize chk dbg bs = ok (t, rest) for both decoders and both build configurations, with Treemap.WFd Bitmap.WF t (Treemap.TWF) and Treemap.elems t = S; the 32-bit C06 is lifted through the bucket loop (Lemmas/TreemapCodecWF.lean: decodeBuckets_spec, decode64_spec), so inner run chunks, offset-less inner headers and empty buckets are covered',
+        '64-bit corollaries: C06_t_sorted (the set of an accepted stream is strictly ascending and inside u64), C06_t_unique / C06_t_agree (the result is the canonical treemap of S, all four decoder configurations agree), C06_t_standard (the decoders invert Spec.encode64, arbitrary trailing bytes) and C06_t_checked_wf are unconditional (the former C06_t_standard_partial / C06_t_checked_wf_partial with the 32-bit kernel hypotheses are gone)',
     ],
     "level_text": "Lean 4 theorem that every stream accepted by the strict reference decoder Spec.decode (written from the "
                   "format specification, cross-validated against the upstream golden files and an independent Rust "
@@ -42,6 +58,6 @@ CFG = {
                   "exactly that set; model tied to the Rust source by differential correspondence on conformant streams "
                   "from an independent encoder.",
     "level_note": "Trusted: Lean kernel; SpecCodec.lean as the reading of RoaringFormatSpec (adjacent runs accepted, declared "
-                  "cardinalities and offsets must be exact); model mirrors serialization.rs (correspondence only). "
-                  "32-bit half only.",
+                  "cardinalities and offsets must be exact); model mirrors serialization.rs (correspondence only). Partial: "
+                  "see proof_gaps.",
 }
